@@ -356,7 +356,7 @@ class BDDTerminalNode(BDDNode):
     Tnodes = {}
 
     def __new__(cls, value):
-        if not (value in set([0, 1, False, True])):
+        if not (type(value) in (int, bool) and value in (0, 1)):
             raise TypeError('expected a value among [0, 1, False, True], ' +
                             'got {}'.format(value))
 
